@@ -160,6 +160,17 @@ def main():
                 continue
             emit('authverdict', ['EHLO', 'AUTH', 'AUTH', 'MAIL', 'AUTH', 'RCPT', 'DATA', 'AUTH', 'QUIT'], {'auth': [va, vb, 0, 0]}, auth=True)
             emit('authverdict', ['AUTH', 'EHLO', 'AUTHBAD', 'AUTH', 'EHLO', 'AUTH', 'MAIL', 'RCPT', 'DATA'], {'auth': [va, vb, 0, 0]}, auth=True)
+    # greetings refused by the application on a server with extensions configured: a refused EHLO / HELO changes nothing
+    for vh in (450, 550):
+        for seq, vd in ((['EHLO', 'HELO', 'AUTH', 'EHLO', 'AUTH', 'MAIL', 'RCPT', 'DATA', 'QUIT'], {'helo': [vh]}),
+                        (['EHLO', 'HELO', 'EHLO', 'AUTH', 'MAIL', 'RCPT', 'DATA', 'QUIT'], {'helo': [vh]}),
+                        (['HELO', 'EHLO', 'AUTH', 'MAIL', 'RCPT', 'DATA', 'QUIT'], {'helo': [vh]}),
+                        (['EHLO', 'EHLO', 'AUTH', 'MAIL', 'RCPT', 'DATA', 'QUIT'], {'ehlo': [0, vh]}),
+                        (['EHLO', 'MAIL', 'HELO', 'RCPT', 'AUTH', 'DATA', 'QUIT'], {'helo': [vh]})):
+            idx += 1
+            if idx % nshards != shard:
+                continue
+            emit('authverdict', seq, vd, auth=True)
     # validator verdicts: a full transaction skeleton x every verdict assignment
     skeleton = ['EHLO', 'MAIL', 'RCPT', 'RCPT', 'DATA', 'MAIL', 'RCPT', 'DATA', 'QUIT']
     for vs in itertools.product([0, 450, 550, 421], repeat=4):
